@@ -109,6 +109,21 @@ class YAMLPath:
                     segment_type, str(segment_attrs.operation),
                     YAMLPath._comparable_segments(
                         YAMLPath(segment_attrs.expression))))
+            elif isinstance(segment_attrs, SearchTerms):
+                # Field by field:  the String form of these (unescaped) terms
+                # cannot tell an escaped symbol from a backslash before one
+                comparable.append((
+                    segment_type, segment_attrs.inverted,
+                    str(segment_attrs.method), str(segment_attrs.attribute),
+                    str(segment_attrs.term)))
+            elif isinstance(segment_attrs, SearchKeywordTerms):
+                try:
+                    parameters = tuple(segment_attrs.parameters)
+                except ValueError:
+                    parameters = (str(segment_attrs),)
+                comparable.append((
+                    segment_type, segment_attrs.inverted,
+                    str(segment_attrs.keyword), parameters))
             else:
                 comparable.append((segment_type, str(segment_attrs)))
         return comparable
